@@ -154,7 +154,11 @@ def ContinuousConditional(cond, true_value, false_value, sigma=1.0):
     # Create Heaviside
     # evaluate=False: sympy would split exp(c + u) into exp(c)*exp(u), and for a small sigma
     # one factor underflows to 0 while the other overflows (0*inf = nan)
-    H = 1 / (1 + sympy.exp((cond.args[0] - cond.args[1]) / sigma, evaluate=False))
+    # The argument is kept exact (0.001 is 1/1000): sympy splits a floating point term off the
+    # argument of an exponential whenever the expression is rebuilt, and it is rebuilt when
+    # conditions are folded or canonicalized, also inside sympy's printers
+    argument = sympy.nsimplify((cond.args[0] - cond.args[1]) / sigma, rational=True)
+    H = 1 / (1 + sympy.exp(argument, evaluate=False))
 
     # Decides which should be weighted with 1 and 0
     if ">" in cond.rel_op:
